@@ -15,7 +15,7 @@ func init() {
 	register(&Property{
 		ID:      "C13",
 		Engines: []string{"cfg", "decide"},
-		Explanation: "WebSocket frame validation, structural part: the per-frame decision of validFrame composed with Parse's opcode switch, read off the branch conditions and compared with RFC 6455 §5.2/5.4/5.5 over all 1024 header combinations x compression setting (O1); the control-payload>125 and negative-64-bit-length rejections dominate frame acceptance (O2); a frame whose nextFrame failed reaches the error return before anything is copied (O3); UTF-8 / close-code / close-reason checks dominate the text and close handlers, each failing edge writes a 1002 close and closes, a message of type 0 is closed and never delivered (O4); validCloseCode's partition of all 65 536 codes (O5); every WebSocket read path tests Parse's error and fails the connection (O6); the default ping handler pongs its argument and the default close handler echoes the code (O7).",
+		Explanation: "WebSocket frame validation, structural part: the per-frame decision of validFrame composed with Parse's opcode switch, read off the branch conditions and compared with RFC 6455 §5.2/5.4/5.5 over all 1024 header combinations x compression setting (O1); the control-payload>125 and negative-64-bit-length rejections dominate frame acceptance (O2); a frame whose nextFrame failed reaches the error return before anything is copied (O3); UTF-8 / close-code / close-reason checks dominate the text and close handlers, each failing edge writes a 1002 close and closes, a message of type 0 is closed and never delivered (O4); validCloseCode's partition of all 65 536 codes (O5); every WebSocket read path tests Parse's error and fails the connection (O6); the default ping handler pongs its argument and the default close handler echoes the code (O7). CheckUtf8 is applied only to whole messages in the message handler (O8); validFrame's expecting-continuation input is the connection's own flag, which follows FIN (O9).",
 		NotCovered: "'accepts everything valid' beyond the frame table; UTF-8 across fragment boundaries as values; segmentation",
 		Run:        runC13,
 	})
@@ -29,7 +29,9 @@ func runC13(c *Ctx) {
 	c.Rule("C13.O5", "E8", "validCloseCode accepts {1000-1003,1007-1011,3000-4999}, rejects {0-999,1004-1006,1016-2999,>=5000} (1012-1015 unconstrained)", 1)
 	c.Rule("C13.O6", "E3,E7e", "every WebSocket read path tests the error of Parse and fails the connection", 3)
 	c.Rule("C13.O8", "E5", "UTF-8 validity is decided on whole messages: the stateless CheckUtf8 is applied only in the message handler (text message, close reason), never to a single frame's payload (a fragment boundary may fall inside a code point)", 1)
+	c.Rule("C13.O9", "E4", "the expecting-continuation input of validFrame is the connection's own flag, set on the non-FIN data-frame edge and cleared on the FIN edge (a proxy such as 'a partial message is buffered' is false for an empty first fragment)", 2)
 	c.Rule("C13.O7", "E4", "default ping handler: WriteMessage(Pong, []byte(arg)); default close handler: close frame with the received code, empty for 1005", 2)
+	c13ExpectFlag(c)
 	c13Utf8Scope(c)
 
 	// ------------------------------------------------------------------ O1
@@ -645,4 +647,68 @@ func c13Utf8Scope(c *Ctx) {
 		bad = "the whole-message UTF-8 checks (text, close reason) were not found in handleWsMessage"
 	}
 	c.Cond(bad == "", "C13.O8", "callers of Engine.CheckUtf8", "", fmt.Sprintf("%v", callers), bad)
+}
+
+// c13ExpectFlag: O9.
+func c13ExpectFlag(c *Ctx) {
+	const fExp = "websocket.Conn.expectingFragments"
+	if nf := c.Fn("C13.O9", "(*websocket.Conn).nextFrame"); nf != nil {
+		bad := "validFrame is not called"
+		for _, cs := range c.P.CallsNamed(nf, "(*websocket.Conn).validFrame") {
+			bad = ""
+			last := cs.Common.Args[len(cs.Common.Args)-1]
+			if c.P.LoadedField(ir.Resolve(last)) != fExp {
+				bad = "validFrame's expecting-continuation argument is " + c.P.Desc(last) + ", not the connection's expectingFragments flag"
+			}
+		}
+		c.Cond(bad == "", "C13.O9", fnKey(c.P, nf, "validFrame reads the flag"), c.FnPos(nf), "last argument = Conn.expectingFragments", bad)
+	}
+	if parse := c.Fn("C13.O9", "(*websocket.Conn).Parse"); parse != nil {
+		nT, nF := 0, 0
+		bad := ""
+		for _, f := range ir.WithClosures(parse) {
+			fi := c.P.Info(f)
+			for _, st := range c.P.StoresTo(f, fExp) {
+				k, ok := ir.ConstBool(st.Val)
+				if !ok {
+					bad = "the flag is assigned a computed value at " + c.Pos(st)
+					continue
+				}
+				// the FIN bit: a bool value named fin tested on the dominating edge
+				finFact := func(want bool) bool {
+					return fi.HasFact(st, func(ft ir.Fact) bool {
+						cnd, truth := ir.StripNot(ft.Cond, ft.Truth)
+						return strings.Contains(c.P.Desc(cnd), "fin") && truth == want || isFinValue(cnd) && truth == want
+					})
+				}
+				if k {
+					nT++
+					if !finFact(false) {
+						bad = "expectingFragments = true at " + c.Pos(st) + " is not on the non-FIN edge"
+					}
+				} else {
+					nF++
+					if !finFact(true) {
+						bad = "expectingFragments = false at " + c.Pos(st) + " is not on the FIN edge"
+					}
+				}
+			}
+		}
+		if (nT == 0 || nF == 0) && bad == "" {
+			bad = fmt.Sprintf("expected the flag to be set on non-FIN and cleared on FIN (found %d / %d stores)", nT, nF)
+		}
+		c.Cond(bad == "", "C13.O9", fnKey(c.P, parse, "flag follows FIN"), c.FnPos(parse), fmt.Sprintf("%d set on !fin, %d clear on fin", nT, nF), bad)
+	}
+}
+
+// isFinValue: the value is the fin result of nextFrame (5th result) possibly via a local.
+func isFinValue(v ssa.Value) bool {
+	if ex, ok := ir.Resolve(v).(*ssa.Extract); ok {
+		if call, ok := ex.Tuple.(*ssa.Call); ok {
+			if f := ir.StaticCallee(&call.Call); f != nil && f.Name() == "nextFrame" {
+				return ex.Index == 4
+			}
+		}
+	}
+	return false
 }
